@@ -544,6 +544,9 @@ def native_part(run):
             ("ones_like", lambda: synapgrad.ones_like(Tensor(np.zeros((2, 2), dtype=np.float32))), np.ones((2, 2))),
             ("zeros_like", lambda: synapgrad.zeros_like(Tensor(np.ones((2, 2), dtype=np.float32))), np.zeros((2, 2))),
             ("arange(5)", lambda: synapgrad.arange(5), np.arange(5.0)), ("arange(1,7,2)", lambda: synapgrad.arange(1, 7, 2), np.arange(1.0, 7, 2)),
+            ("arange(-3,0)", lambda: synapgrad.arange(-3, 0), np.arange(-3.0, 0)), ("arange(3,0,-1)", lambda: synapgrad.arange(3, 0, -1), np.arange(3.0, 0, -1)),
+            ("arange(0)", lambda: synapgrad.arange(0), np.arange(0.0)), ("arange(2,2)", lambda: synapgrad.arange(2, 2), np.arange(2.0, 2)), ("arange(0,3)", lambda: synapgrad.arange(0, 3), np.arange(0.0, 3)),
+            ("arange(-2,0.0,0.5)", lambda: synapgrad.arange(-2, 0.0, 0.5), np.arange(-2, 0.0, 0.5)), ("arange(1,-1,-0.5)", lambda: synapgrad.arange(1, -1, -0.5), np.arange(1, -1, -0.5)),
             ("eye(3)", lambda: synapgrad.eye(3), np.eye(3)), ("tensor(list)", lambda: synapgrad.tensor([[1, 2], [3, 4]]), np.array([[1.0, 2], [3, 4]])),
             ("tensor(scalar)", lambda: synapgrad.tensor(2.5), np.array(2.5))]
     for name, mk, exp in ctor:
@@ -592,6 +595,20 @@ def dtype_mixed_part(run):
                         run.violation("Tensor.%s.value_with_python_scalar" % name, "%s tensor %s with scalar %r: got %s, NumPy/PyTorch give %s" %
                                       (np.dtype(dt).name, base.tolist(), c, np.asarray(got.data).tolist(), want.tolist()), key=key,
                                       replay={**key, "operand": base.tolist(), "actual": np.asarray(got.data).tolist(), "expected": want.tolist()})
+    # reductions "to rounding of the operand dtype" for every floating dtype a tensor can hold, float16 included: the mean of representable values whose
+    # SUM is not representable (NumPy and PyTorch accumulate a float16 mean in float32)
+    import synapgrad.functional as F_
+    for dt, big in ((np.float16, 1000.0), (np.float32, 1e30), (np.float64, 1e300)):      # float32/float64: NumPy and PyTorch accumulate in the operand dtype, so the sum must stay representable
+        x = (big * (1.0 + 0.01 * rng.rand(4, 100))).astype(dt)
+        for dim in (None, 0, 1, (0, 1)):
+            for keep in (False, True):
+                run.rt(("mean-large", np.dtype(dt).name, dim, keep))
+                want = np.mean(x.astype(np.float64), axis=dim, keepdims=keep)
+                got = np.asarray(F_.mean(Tensor(x.copy()), dim, keep).data)
+                if got.shape != want.shape or not np.allclose(got.astype(np.float64), want, rtol=8 * float(np.finfo(dt).eps), atol=0):
+                    run.violation("functional.mean.value_to_rounding_of_operand_dtype", "mean(dim=%s, keepdims=%s) of a %s tensor of shape (4, 100) with entries around %g: got %s, the mean is %s"
+                                  % (dim, keep, np.dtype(dt).name, big, got.ravel()[:3].tolist(), want.ravel()[:3].tolist()), key={"op": "functional.mean", "dtype": np.dtype(dt).name, "dim": str(dim)},
+                                  replay={"dtype": np.dtype(dt).name, "dim": str(dim), "keepdims": keep, "magnitude": big})
     t = synapgrad.randint(1, 9, (2, 3))
     run.rt(("dtype-mixed", "randint*0.5"))
     if not np.allclose(np.asarray((t * 0.5).data, dtype=np.float64), np.asarray(t.data, dtype=np.float64) * 0.5):
